@@ -2,6 +2,7 @@ from typing import Optional, Tuple
 
 import numpy as np
 
+from classy_blocks.base import transforms as tr
 from classy_blocks.construct.curves.curve import FunctionCurveBase
 from classy_blocks.construct.point import Point
 from classy_blocks.types import NPVectorType, ParamCurveFuncType, PointType, VectorType
@@ -84,6 +85,23 @@ class CircleCurve(AnalyticCurve):
     @property
     def normal(self) -> NPVectorType:
         return self.atop.position - self.origin.position
+
+    def mirror(self, normal: VectorType, origin: Optional[PointType] = None):
+        """A mirror image turns the other way round: flip the normal so that
+        the same parameters give the mirrored points"""
+        super().mirror(normal, origin)
+        self.atop.position = 2 * self.origin.position - self.atop.position
+
+        return self
+
+    def transform(self, transforms):
+        super().transform(transforms)
+
+        # as in mirror()
+        if sum(isinstance(t7m, tr.Mirror) for t7m in transforms) % 2 == 1:
+            self.atop.position = 2 * self.origin.position - self.atop.position
+
+        return self
 
     @property
     def center(self):
